@@ -64,9 +64,11 @@ Definition spec_course (ign_a : bool) (rviews : list rview) (ci : nat) (v : cvie
 Definition spec_courses (ign_a : bool) (csorted : list cview) (rviews : list rview) : list rcourse :=
   map (fun iv : nat * cview => spec_course ign_a rviews (fst iv) (snd iv)) (combine (seq 0 (List.length csorted)) csorted).
 Definition same_course (r : rview) : bool := match pc_assigned (rv_pcd r) with Some ci => opt_is (pc_instr (rv_pcd r)) ci | None => false end.
+(* a participant WITH CHOICES (valid ones: of courses of the problem) -- only those are rated *)
+Definition has_choices (r : rview) : bool := match pc_choices (rv_pcd r) with [] => false | _ => true end.
 Definition spec_quality (ign_a : bool) (td : json) (rviews : list rview) : nat * list nat :=
   let ign := filter (ignored ign_a) rviews in
-  (List.length (filter same_course ign),
+  (List.length (filter (fun r => same_course r && has_choices r) ign),
    map (fun r => match pc_assigned (rv_pcd r) with Some ci => assigned_penalty ci (pc_choices (rv_pcd r)) td | None => 0 end)
        (filter (fun r => negb (same_course r)) ign)).
 (* the courses of the problem: those offered (and not ignored), ordered by right-aligned course number, ties in key order *)
